@@ -854,7 +854,24 @@ async def sc_attestation(sim, nodes, rng):
                     if p.address == m.base.wan_address:
                         act(n, "request_attestation", p, f"attr{i}", _StubKey(), {"id_format": "id_metadata"})
         await nap(0.7)
-    await nap(3.0)
+    await nap(1.5)
+    if rng.random() < 0.6:
+        # WHITE BOX: a long-running session — the anonymous-name counter of every overlay is moved forward to just below a power
+        # of two (the 2**k handled messages in between are not executed); then further requests arrive while the first
+        # handlers are still waiting for the application
+        wrap = rng.choice(ANON_WRAPS)
+        for n in nodes:
+            if not (n is sim.target and sim.unload_started is not None):
+                n.overlay._counter = max(n.overlay._counter, wrap - 2)  # noqa: SLF001
+        sim.stats["counter_fast_forward"] = wrap.bit_length() - 1
+        for i, n in enumerate(nodes):
+            for m in nodes:
+                if n is not m:
+                    for p in list(n.overlay.get_peers()):
+                        if p.address == m.base.wan_address:
+                            act(n, "request_attestation", p, f"again{i}", _StubKey(), {"id_format": "id_metadata"})
+            await nap(0.3)
+    await nap(1.5)
     sim.app_futures = pending
 
 
@@ -1958,6 +1975,55 @@ CURATED_TM = [
 ]
 
 
+ANON_WRAPS = [2 ** 8, 2 ** 15, 2 ** 16, 2 ** 31, 2 ** 32]
+
+
+def tm_anonymous_names_case(wrap, on_cache):
+    """Anonymous tasks (what message handlers and @task calls are registered as) while older ones of the same base name are
+    still pending, in a long-running session.  WHITE BOX: the 2**k registrations that came and went in between are not
+    executed; the private counter the names are derived from is moved forward instead (recorded as such in the evidence)."""
+    import vclock
+    loop = vclock.new_loop()
+    findings = []
+
+    async def main():
+        from asyncio import sleep
+
+        from ipv8.requestcache import RequestCache
+        from ipv8.taskmanager import TaskManager
+        tm = RequestCache() if on_cache else TaskManager()
+
+        async def handler():
+            await sleep(10 ** 6)
+
+        first = [tm.register_anonymous_task("on_packet", handler) for _ in range(3)]
+        await sleep(0)
+        tm._counter = max(tm._counter, wrap - 2)  # noqa: SLF001   (fast-forward of a long-running session)
+        later = []
+        for i in range(5):
+            try:
+                later.append(tm.register_anonymous_task("on_packet", handler))
+            except RuntimeError as e:
+                findings.append(("register_anonymous_task:name-collision",
+                                 f"after about {wrap} anonymous registrations a new anonymous task was refused ({e}) because an "
+                                 f"older one of the same base name is still pending — its coroutine, started by the caller, "
+                                 f"runs outside the task manager"))
+                break
+        await (tm.shutdown() if on_cache else tm.shutdown_task_manager())
+        await sleep(1)
+        if any(not f.done() for f in first + later):
+            findings.append(("shutdown_task_manager:task-survived", "an anonymous task survived the shutdown"))
+
+    try:
+        loop.run_until_complete(main())
+    finally:
+        drain(loop)
+        vclock.uninstall()
+        loop.close()
+        asyncio.set_event_loop(None)
+    return findings
+
+
 def tm_case(ctx: Ctx, rng, n_ops):
     if ctx is not None and ctx.counts.get("tm-curated", 0) < len(CURATED_TM):
         lines = CURATED_TM[ctx.counts.get("tm-curated", 0)]
@@ -2258,7 +2324,7 @@ def scenario_specs(ctx: Ctx, rng, per_combo_steps, per_combo_times, steps_cache)
                         # a datagram reaches the node (a CREATE / data cell may arrive while unload is suspended)
                         deep = per_combo_steps is None
                         for tgt in (range(n) if deep else [n - 1]):
-                            its = sorted({it - d for it, dst in send_iters if dst == tgt for d in range(6) if it - d > 0})
+                            its = sorted({it - d for it, dst in send_iters if dst == tgt for d in range(6 if deep else 4) if it - d > 0})
                             for it in its:
                                 yield {**base, "target": tgt, "trigger": ["iter", it]}
                     if family == "tunnel":
@@ -2336,6 +2402,8 @@ def run_one_scenario(ctx: Ctx, spec):
         ctx.count("unload-with-owned-child-overlays")
     if st.get("owner_unloaded"):
         ctx.count("child-overlay-unloaded-by-its-owner")
+    if st.get("counter_fast_forward"):
+        ctx.count("long-session(white-box counter fast-forward):2^%d" % st["counter_fast_forward"])
     ctx.count("target-traffic:%s" % ("none" if st["pre_sent"] + st["pre_recv"] == 0 else
                                      "1-9" if st["pre_sent"] + st["pre_recv"] < 10 else "10+"))
     nontrivial = (st["pre_sent"] + st["pre_recv"] > 0) or st["pre_tasks"] > 0      # RULE: traffic or a protocol task pending
@@ -2466,6 +2534,13 @@ def run_registry(ctx: Ctx, rng, n_cases, use_model):
 
 def run_tm(ctx: Ctx, rng, n_cases, use_model):
     all_lines, all_impl, starts = [], [], []
+    for wrap in ANON_WRAPS:
+        for on_cache in (False, True):
+            ctx.count("tm-anonymous-names(white-box counter fast-forward):2^%d" % (wrap.bit_length() - 1))
+            ctx.case(("tm-anon", wrap, on_cache), True)
+            for sig, what in tm_anonymous_names_case(wrap, on_cache):
+                ctx.count("violation:" + sig)
+                ctx.oracle_fail(sig, what, {"kind": "tm-anonymous-names", "wrap": wrap, "on_cache": on_cache})
     for i in range(max(12, n_cases // 25)):
         sub_seed = rng.getrandbits(32)
         on_cache = i % 3 == 2
@@ -2653,14 +2728,14 @@ def run(ctx: Ctx):
     rng = ctx.rng
     use_model = ctx.model_ok
     run_unload_static(ctx, use_model)
-    run_registry(ctx, rng, ctx.scale(400, 4000), use_model)
-    run_tm(ctx, rng, ctx.scale(400, 4000), use_model)
+    run_registry(ctx, rng, ctx.scale(300, 4000), use_model)
+    run_tm(ctx, rng, ctx.scale(300, 4000), use_model)
     run_service_ops(ctx, rng, ctx.scale(300, 3000), use_model)
     run_cache(ctx, rng, ctx.scale(300, 3000), use_model)
     if ctx.thorough():
         run_scenarios(ctx, rng, None, 6)          # every packet index, every role
     else:
-        run_scenarios(ctx, rng, 14, 4)
+        run_scenarios(ctx, rng, 10, 3)
     for cls in sorted(overlay_classes()):
         if not any(k == f"scenario:{cls}" for k in ctx.counts):
             raise InfraError(f"no scenario ran for shipped overlay class {cls}")
@@ -2702,6 +2777,12 @@ def replay(ctx: Ctx, rec: dict):
         for sig, what in findings:
             ctx.oracle_fail(sig, what, r)
         print(f"replay TaskManager sequence ({len(lines)} ops): {'property FAILS: ' + '; '.join(w for _, w in findings) if findings else 'property holds'}")
+        ctx.case(("replay",), True)
+    elif kind == "tm-anonymous-names":
+        findings = tm_anonymous_names_case(r["wrap"], r["on_cache"])
+        for sig, what in findings:
+            ctx.oracle_fail(sig, what, r)
+        print(f"replay anonymous names after ~{r['wrap']} registrations: {'property FAILS: ' + findings[0][1] if findings else 'property holds'}")
         ctx.case(("replay",), True)
     elif kind == "tm-self-periodic":
         desc, findings = tm_self_periodic_case(random.Random(r["seed"]), r["on_cache"])
